@@ -704,7 +704,13 @@ static void task_b(void *arg)
         mc_observe("B accept -> %s", errname(errno));
         if (errno != EAGAIN) {
             /* legitimate only when the client has already given up on this attempt */
-            if (!A.gave_up)
+            /* ... or when the environment withheld the establishment beyond tcp.connect_timeout
+               (virtual time): the client side has abandoned the attempt inside the library even if
+               its application has not been told yet (same rule as terminal()) */
+            /* ... or when the client has already finished its script and closed: a handshake that
+               fails because the peer is gone (e.g. EPIPE while sending TLS session tickets behind the
+               client's FIN) is the peer's departure, not a liveness failure */
+            if (!A.gave_up && !A.closed && env_now_ns() - g_t0 < 3000000000LL)
                 V("C04", "C04/accept-failed-unexpectedly", "xcm_accept_a failed with %s", errname(errno));
             xcm_attr_map_destroy(at);
             x->term_errno = errno;
